@@ -671,10 +671,12 @@ class Gen(object):
                 sp = ['f', sp[2], sp[3]]
             op['b'] = {'val': sp}
         op['a'] = self.cands().index(ia)
+        if not judged and self.w.containers and 'containers' in self.p.groups and r.random() < 0.12:
+            op['b'] = {'cont': r.randrange(len(self.w.containers))}
         k = r.random()
         if k < 0.55:
             op['route'] = 'op'
-        elif k < 0.65 and 'val' in op['b'] and op['b']['val'][0] in ('i', 'f'):
+        elif k < 0.65 and ('cont' in op['b'] or ('val' in op['b'] and op['b']['val'][0] in ('i', 'f'))):
             op['route'] = 'rop'
         elif k < 0.9:
             op['route'] = 'fn'
